@@ -567,6 +567,15 @@ def slim(ev: dict) -> dict:
 
 def run_into(v: Verdict, prop: str, tier: str) -> None:
     """system-level traces for a property whose main check lives elsewhere (C06)"""
+    # design level: SystemW.tla - two clients, client writes racing with driver-side assignments, independent channels
+    cfgw = "MC_SystemW_quick.cfg" if tier == "quick" else "MC_SystemW.cfg"
+    res = tlc.require_ok(tlc.run_tlc("SystemW", cfgw, timeout=7200, heap="12g"), cfgw)
+    v.add_tlc(res, cfgw + " (two clients, client writes: Converged, WriteExact, NoStaleOverwrite)")
+    if res.violated:
+        v.violation(f"TLC: {res.violated} violated in the system model with client writes ({cfgw})", {"kind": "tlc", "cfg": cfgw, "tail": res.stdout[-3000:]})
+    a = tlc.require_ok(tlc.run_tlc("SystemW", "MC_SystemW_asis.cfg", timeout=2400), "SystemW as-is self-test")
+    if a.violated != "NoStaleOverwrite":
+        raise tlc.MachineryError(f"self-test: a client that re-sends untouched members should violate NoStaleOverwrite, got {a.violated}")
     r = rng("system-" + prop)
     n = 60 if tier == "quick" else 1500
     traces = []
